@@ -65,7 +65,10 @@ FailingA(c) ==
       cut  == c.obs.killed # << >>
       \* "the same set as the single-process search": the observed sequential result where there is one
       ref  == IF "seq" \in DOMAIN c.obs THEN ObsSet(c, c.obs.seq) ELSE full
-      sawDeadline == \E i \in DOMAIN c.events : c.events[i].e = "check" /\ c.events[i].expired
+      \* the time limit had passed when workers were killed: seen in the code's own clock reads, or measured
+      \* by the harness between the first Process.start() and the first kill
+      sawDeadline == \/ \E i \in DOMAIN c.events : c.events[i].e = "check" /\ c.events[i].expired
+                     \/ ("deadlinePassed" \in DOMAIN c.obs /\ c.obs.deadlinePassed)
   IN
   (IF ~IsEdges(c) /\ ~(res \subseteq ref) THEN {"A:reported-lcd-not-in-untimed-result"} ELSE {})
   \cup (IF IsEdges(c) /\ LET E == TripleSet(c.E)  X == TripleSet(c.X) IN
